@@ -168,6 +168,48 @@ def gen_rand_program(rnd, pid):
     return dict(id=pid, clocks=clocks, routines=bodies, main=[I('P', s='r0', c=c0)], tail=0, cls='B')
 
 
+def gen_tie_program(rnd, pid):
+    """ties: several routines of one clock pending at the SAME beat, one of them re-scheduled while pending
+    (pause + resume moves it behind the others), then the queue is re-timed by a tempo change, and bundles sent
+    at equal times.  The order they wake in must be (time, most recent scheduling) - C09 through its consumers."""
+    tc = rnd.random() < 0.8
+    clocks = {'t1': rnd.choice(TEMPI)} if tc else {}
+    c = 't1' if tc else 'sys'
+    k = rnd.randint(2, 4)
+    names = ['r%d' % i for i in range(k + 1)]          # r0 = the director, the others tie
+    d = rnd.choice([TU // 2, TU, 2 * TU])
+    bodies = {}
+    tag = [0]
+
+    def send():
+        tag[0] += 1
+        return I('S', a=rnd.choice([0, TU // 4, TU]), b=0, s='/t%d' % tag[0])
+    for r in names[1:]:
+        b = [I('Y', a=d)]
+        if rnd.random() < 0.6:
+            b.append(send())
+        b.append(I('Y', a=rnd.choice([0, d, TU // 4])))
+        if rnd.random() < 0.5:
+            b.append(send())
+        bodies[r] = b
+    director = [I('Y', a=d)]
+    victims = rnd.sample(names[1:], rnd.randint(1, min(2, k)))
+    for v in victims:
+        director += [I('X', s=v), I('Z', s=v)]
+    if tc and rnd.random() < 0.8:
+        director.append(I('T', c='t1', **dict(zip('ab', rnd.choice(TEMPI)))))
+    if rnd.random() < 0.5:
+        director.append(send())
+    director.append(I('Y', a=rnd.choice([0, TU // 4])))
+    if tc and rnd.random() < 0.4:
+        director.append(I('T', c='t1', **dict(zip('ab', rnd.choice(TEMPI)))))
+    bodies['r0'] = director
+    order = list(names)
+    if rnd.random() < 0.5:       # the director is not always the first one scheduled
+        order = names[1:] + ['r0'] if rnd.random() < 0.5 else order
+    return dict(id=pid, clocks=clocks, routines=bodies, main=[I('P', s=r, c=c) for r in order], tail=0, cls='B')
+
+
 def fix_seed_inheritance(prog):
     """D instructions are only meaningful under a seeded generator: drop draws that would use the unseeded
     main generator (a routine inherits the generator of the routine that played it, at that moment)."""
